@@ -30,6 +30,13 @@ impl ReceiveWindow {
     }
 }
 
+#[cfg(uflow_verif)]
+impl FrameAckQueue {
+    pub fn verif_dump(&self) -> String {
+        format!("base={} len={}", self.receive_window.base_id(), self.entries.len())
+    }
+}
+
 pub struct FrameAckQueue {
     entries: std::collections::VecDeque<frame::AckGroup>,
     receive_window: ReceiveWindow,
